@@ -179,7 +179,12 @@ class Inliner(object):
             return None
         private = g.name.startswith('_') and not g.name.startswith('__')
         nested = g.parent is not None
-        if not (private or nested):
+        # the constructor of a private base class called from a subclass constructor (`_Base.__init__(self, ...)` /
+        # `super(...).__init__(...)`): the shared part of two constructors pulled up into a base class
+        base_init = (g.name == '__init__' and fn.name == '__init__' and g.cls is not None and fn.cls is not None and
+                     g.cls is not fn.cls and g.cls.name.startswith('_') and not g.cls.name.startswith('__') and
+                     isinstance(call.func, ast.Attribute) and call.func.attr == '__init__')
+        if not (private or nested or base_init):
             return None
         if g.vararg:
             return None
@@ -196,6 +201,8 @@ class Inliner(object):
         mapping = {}
         if bound and params:
             recv = call.func.value if isinstance(call.func, ast.Attribute) else ast.Name(id='self', ctx=ast.Load())
+            if isinstance(recv, ast.Call) and isinstance(recv.func, ast.Name) and recv.func.id == 'super':
+                recv = ast.Name(id='self', ctx=ast.Load())
             mapping[params[0]] = recv
             params = params[1:]
         if len(call.args) > len(params):
@@ -447,6 +454,23 @@ class Inliner(object):
                 new_s = R0().visit(new_s)
                 ast.fix_missing_locations(new_s)
                 self.inlined_fns.add(g.fq)
+                # `a, b = helper(...)` with the helper ending in `return x, y`: bind element by element, and let the
+                # helper write straight into a / b where x / y are locals of the helper that nothing else touches
+                if isinstance(new_s, ast.Assign) and len(new_s.targets) == 1 and isinstance(new_s.targets[0], ast.Tuple) and \
+                        isinstance(new_s.value, ast.Tuple) and len(new_s.value.elts) == len(new_s.targets[0].elts) and \
+                        all(isinstance(t, ast.Name) for t in new_s.targets[0].elts) and \
+                        all(isinstance(v, ast.Name) for v in new_s.value.elts) and \
+                        len({v.id for v in new_s.value.elts}) == len(new_s.value.elts):
+                    tail = []
+                    for t, v in zip(new_s.targets[0].elts, new_s.value.elts):
+                        used = any(isinstance(x, ast.Name) and x.id == t.id for st0 in conv for x in ast.walk(st0))
+                        if v.id not in caller_names and not used and v.id != t.id:
+                            ren = _Subst({}, {v.id: t.id})
+                            conv = [ren.visit(st0) for st0 in conv]
+                        else:
+                            a1 = ast.Assign(targets=[ast.Name(id=t.id, ctx=ast.Store())], value=ast.Name(id=v.id, ctx=ast.Load()))
+                            tail.append(ast.fix_missing_locations(ast.copy_location(a1, new_s)))
+                    return pre + conv + tail
                 return pre + conv + [new_s]
             conv, _ = _retify(body, var, s)
             new_s = copy.deepcopy(s)
@@ -623,6 +647,8 @@ def apply(project, resolver, report_note=None):
                     copies.setdefault((x.name, x.lineno), x)
             for name, sub in list(fn.nested.items()):
                 _relink(sub, copies)
+            # nested defs that came in with an inlined helper are functions of the caller now
+            _adopt_nested(m, fn)
             fn.is_generator = any(isinstance(x, (ast.Yield, ast.YieldFrom)) for x in _own(old))
     # a helper whose every use was inlined no longer exists as far as the rules are concerned
     gone = []
@@ -673,6 +699,27 @@ def _own(fnode):
             if isinstance(c, (ast.FunctionDef, ast.AsyncFunctionDef, ast.Lambda, ast.ClassDef)):
                 continue
             stack.append(c)
+
+
+def _adopt_nested(module, fn):
+    """register the nested defs found directly in fn's body that have no FunctionInfo yet (recursively)"""
+    from .loader import FunctionInfo
+    known = {id(sub.node) for sub in fn.nested.values()}
+    for x in _own(fn.node):
+        if isinstance(x, (ast.FunctionDef, ast.AsyncFunctionDef)) and id(x) not in known:
+            name = x.name
+            if name in fn.nested:
+                # the same name twice (two inlined copies): keep the first, still register the second under a suffix
+                k = 2
+                while '%s#%d' % (name, k) in fn.nested:
+                    k += 1
+                key = '%s#%d' % (name, k)
+            else:
+                key = name
+            sub = FunctionInfo(module, x, fn.qualname + '.' + key, cls=fn.cls, parent=fn)
+            fn.nested[key] = sub
+            module.functions[sub.qualname] = sub
+            _adopt_nested(module, sub)
 
 
 def _relink(sub, copies):
